@@ -138,6 +138,7 @@ func main() {
 	c.Rule += " " + "Part 4 shrinks the set of provider deployments: the binding loses the subject."
 	c.Rule += " " + "A fifth of the XRDs carry an object name other than <plural>.<group>."
 	c.Rule += " " + "Family members that are older revisions of the same Provider object from another organisation (parent-package label)."
+	c.Rule += " " + "A quarter of the role-reconciler targets start as an inactive revision, and targets are activated / deactivated between phases."
 	c.Assumptions = []string{
 		"Kubernetes RBAC semantics are those of RuleAllows/VerbMatches/APIGroupMatches/ResourceMatches/ResourceNameMatches/NonResourceURLMatches as documented; the oracle re-implements them",
 		"a concrete universe built from all tokens of a pair plus one fresh token per dimension is a complete model because matching only compares tokens for equality or a path against a literal prefix",
